@@ -81,7 +81,7 @@ def check(run):
     exe = build()
     quick = run.tier == "quick"
     nshards = 4 if quick else 16
-    ngroups = 270 if quick else 4200
+    ngroups = 270 if quick else 12000
     corpus = corpus_file()
     jobs = [(src, run.seed, i, ngroups, exe, corpus) for i in range(nshards)]
     with concurrent.futures.ThreadPoolExecutor(max_workers=nshards) as ex:
